@@ -3,14 +3,20 @@ sys.path.insert(0, '/repo/src'); sys.path.insert(0, '/verif')
 from pyvc.engine import Engine
 from pyvc.backends import solve_all
 import importlib
-mod, fn, prop = sys.argv[1], sys.argv[2], sys.argv[3]
-importlib.import_module(mod)
+mods, fns, prop = sys.argv[1].split(","), sys.argv[2].split(","), sys.argv[3]
+for m in mods: importlib.import_module(m)
 e = Engine()
-t=time.time()
-vcs = e.verify_function(fn, prop)
-print("gen", round(time.time()-t,2), "vcs", len(vcs), "trivial", len(e.trivial))
-solve_all(vcs, tier="quick")
-for vc in vcs:
+import contracts.domain as d
+d.declare(e)
+allv=[]
+for fn in fns:
+    t=time.time()
+    vcs = e.verify_function(fn, prop)
+    print(fn, "gen", round(time.time()-t,2), "vcs", len(vcs), "trivial", len(e.trivial))
+    allv+=vcs
+solve_all(allv, tier="quick")
+for vc in allv:
     r = vc.result
-    print(vc.kind, r["verdict"], r["backend"], round(r["seconds"],2), vc.name, r["model"] if r["verdict"]=="sat" and vc.kind=="valid" else "", r["log"] if r["verdict"]=="unknown" else "")
-print(e.functions_verified)
+    if r["verdict"]!="unsat" and not (vc.kind=="cover" and r["verdict"]=="sat"):
+        print(vc.kind, r["verdict"], r["backend"], round(r["seconds"],2), vc.name, vc.note, str(r["model"])[:300] if r["verdict"]=="sat" and vc.kind=="valid" else "", r["log"] if r["verdict"]=="unknown" else "")
+print("total", len(allv), "unsat", sum(1 for v in allv if v.result["verdict"]=="unsat"))
